@@ -25,3 +25,24 @@ package vortex
 //@ ensures[accept] isnil(result) == (uf_fold(leaf, proof, i, len(proof)) == root && ufint_shr(i, len(proof)) == 0)
 //@ modifies nothing
 //@ end
+
+// Open under contract (C16): for a well-formed tree (level l has 2^l nodes) the proof for index i has one sibling
+// per level below the root, the k-th one being the node at position (i >> k) ^ 1 of level depth-k; an index outside
+// 0 .. 2^depth-1 (negative ones included) is refused with an error and nothing is indexed out of range. The levels
+// are a slice of slices: "option functional-nested-slices" reads its rows as functions of the row index.
+
+//@ func MerkleTree.Open
+//@ layer opaque Hash
+//@ option inline-callees Depth
+//@ option owned-loop-slices
+//@ option functional-nested-slices
+//@ requires len(mt.Levels) >= 1 && len(mt.Levels) <= 62
+//@ requires forall(l, 0, len(mt.Levels), len(mt.Levels[l]) == 1 << l)
+//@ loop 0
+//@ + invariant[walk] 0 <= level && level < len(mt.Levels) && len(res) == len(mt.Levels) - 1 - level && 0 <= parentPos && parentPos < 1 << level && parentPos == i >> (len(mt.Levels) - 1 - level) && forall(k, 0, len(res), res[k] == mt.Levels[len(mt.Levels)-1-k][(i >> k) ^ 1])
+//@ ensures[range] isnil(result1) ==> 0 <= i && i < 1 << (len(mt.Levels) - 1)
+//@ ensures[length] isnil(result1) ==> len(result0) == len(mt.Levels) - 1
+//@ ensures[siblings] isnil(result1) ==> forall(k, 0, len(mt.Levels) - 1, result0[k] == mt.Levels[len(mt.Levels)-1-k][(i >> k) ^ 1])
+//@ ensures[rejects] !isnil(result1) ==> i < 0 || i >= 1 << (len(mt.Levels) - 1)
+//@ modifies nothing
+//@ end
